@@ -1,6 +1,6 @@
 (* Property C04 — ALTER TABLE / CREATE INDEX change exactly the table they name, as declared. *)
 From Coq Require Import String Ascii List ZArith NArith Bool.
-From SDP Require Import Base PyStr Lexer Actions Parse Engine Seq Entity Output OutputProofs Table Alter AlterProofs AlterKeyProofs.
+From SDP Require Import Base PyStr Lexer Actions Parse Engine Seq Entity Output OutputProofs Table Alter AlterProofs AlterKeyProofs AlterEffectProofs.
 Import ListNotations.
 Open Scope string_scope.
 
@@ -83,6 +83,65 @@ Example C04_example :
   | _ => false
   end = true.
 Proof. vm_compute. reflexivity. Qed.
+
+(* ---------- the declared effect on the column list, for ANY column list (entries with string names) --------------------------------
+   DROP COLUMN removes the first column whose name matches modulo quoting and letter case, every other entry keeps its position;
+   RENAME COLUMN gives that column the new name and keeps everything else; MODIFY / ALTER COLUMN replaces it in place and records
+   the previous definition; ADD appends the new column unless one of that name exists; ADD PRIMARY KEY / UNIQUE are recorded in
+   the alter section. *)
+Theorem C04_drop_column_effect : forall t stmt alter c cols,
+  tget t "alter" = PDict alter -> getitem stmt "columns_to_drop" = Ok (PList [PStr c]) ->
+  tget t "columns" = PList cols -> Forall col_named cols ->
+  exists alter' cols',
+    alter_drop_columns t stmt = Ok (dict_set (dict_set t "alter" (PDict alter')) "columns" (PList cols')) /\
+    match first_idx (normalize_name c) cols 0 with
+    | Some k => cols' = remove_nth cols k /\ (exists x, nth_error cols k = Some x /\ get_or_none alter' "dropped_columns" = x)
+    | None => cols' = cols
+    end.
+Proof. exact drop_column_effect. Qed.
+Print Assumptions C04_drop_column_effect.
+Theorem C04_rename_column_effect : forall t stmt alter a to old cols,
+  tget t "alter" = PDict alter -> getitem stmt "columns_to_rename" = Ok (PList [PDict [("from", PStr a); ("to", to)]]) ->
+  tget t "columns" = PList cols -> Forall col_named cols ->
+  as_list (get_or_none (ensure_list_key alter "renamed_columns") "renamed_columns") = Ok old ->
+  exists cols',
+    alter_rename_columns t stmt =
+    Ok (dict_set (dict_set t "alter" (PDict (dict_set (ensure_list_key alter "renamed_columns") "renamed_columns"
+                                                       (PList (old ++ [PDict [("from", PStr a); ("to", to)]])))))
+                 "columns" (PList cols')) /\
+    match first_idx (normalize_name a) cols 0 with
+    | Some k => exists x, nth_error cols k = Some x /\ cols' = replace_nth cols k (col_upd "name" to x)
+    | None => cols' = cols
+    end.
+Proof. exact rename_column_effect. Qed.
+Print Assumptions C04_rename_column_effect.
+Theorem C04_modify_column_effect : forall t stmt alter m cols,
+  tget t "alter" = PDict alter -> getitem stmt "columns_to_modify" = Ok (PList [m]) -> col_named m ->
+  tget t "columns" = PList cols -> Forall col_named cols ->
+  exists alter' cols',
+    alter_modify_columns t stmt = Ok (dict_set (dict_set t "alter" (PDict alter')) "columns" (PList cols')) /\
+    match first_idx (normalize_name (cname m)) cols 0 with
+    | Some k => cols' = replace_nth cols k m /\ (exists x, nth_error cols k = Some x /\ get_or_none alter' "modified_columns" = x)
+    | None => cols' = cols
+    end.
+Proof. exact modify_column_effect. Qed.
+Print Assumptions C04_modify_column_effect.
+Theorem C04_add_column_effect : forall hooks t stmt alter newc cols,
+  tget t "alter" = PDict alter -> truthy (get_or_none alter "columns") = false ->
+  getitem stmt "columns" = Ok (PList [newc]) -> truthy (get_or_none stmt "references") = false -> col_named newc ->
+  tget t "columns" = PList cols -> Forall col_named cols ->
+  prepare_alter_columns hooks t stmt =
+  Ok (dict_set (dict_set t "alter" (PDict (dict_set alter "columns" (PList [newc])))) "columns"
+               (PList (if mem (normalize_name (cname newc)) (map (fun c => normalize_name (cname c)) cols) then cols else cols ++ [newc]))).
+Proof. exact add_column_effect. Qed.
+Print Assumptions C04_add_column_effect.
+Theorem C04_key_recorded : forall t stmt alter key item old,
+  tget t "alter" = PDict alter -> getitem stmt key = Ok item -> dict_has stmt "using" = false ->
+  as_list (get_or_none (ensure_list_key alter (key ++ "s")) (key ++ "s")) = Ok old ->
+  set_alter_to_table_data t key stmt =
+  Ok (dict_set t "alter" (PDict (dict_set (ensure_list_key alter (key ++ "s")) (key ++ "s") (PList (old ++ [item]))))).
+Proof. exact key_recorded_effect. Qed.
+Print Assumptions C04_key_recorded.
 
 (* ---------- the grammar side: the statement entity of every ALTER TABLE of the fragment (Spec/Alter.v) ------------------------
    ALTER TABLE [schema.]name  DROP COLUMN c | RENAME COLUMN a TO b | ADD c type | MODIFY [COLUMN] c type [(n)] | ALTER COLUMN c type [(n)]
